@@ -1,1 +1,453 @@
--- property theorems for C13 (stub)
+import RP.Model.Kmeans
+import RP.Lemmas.ArithReal
+import RP.Lemmas.Hist
+import Mathlib.Order.Defs.LinearOrder
+set_option linter.unusedSimpArgs false
+/-! # C13 — a k-means step assigns every point to its nearest centroid and conserves mass
+
+Model: `RP.Kmeans` (`neighborhood`, `next`, `lookup`, `metric` of `clustering/layer.rs`).
+The earth mover's distance is an arbitrary function into a linear order `β`
+(`tcmp a b = some (compare a b)`); an unordered comparison (`NaN`) is the failure outcome `none`.
+
+* `C13_argmin_first_min`   : `neighborhood` returns the FIRST index attaining the minimum
+* `C13_next_spec`          : every centroid of `next` is the pointwise sum of exactly the points whose
+                             first-nearest centroid it is; `C13_next_conserves` : total mass and every
+                             per-bucket count are conserved; `C13_next_length`
+* `C13_lookup_spec`        : the i-th class is paired with the bucket of the i-th point's nearest centroid
+* `C13_metric_entries`     : one entry per unordered pair given collision-free keys, with the symmetrised
+                             value; `C13_metric_symmetric`, `C13_metric_nonneg`, `C13_metric_max`
+-/
+namespace RP.C13
+open RP.Transport RP.Kmeans
+
+/-! ## argmin: the first minimum -/
+section argmin
+variable {β : Type} [LinearOrder β]
+
+/-- the total comparison of a linear order, as a `partial_cmp` that never fails -/
+def tcmp (a b : β) : Option Ordering := some (compare a b)
+
+/-- `r` splits `l` into strictly larger elements before it and not-smaller elements after it -/
+def FirstMin (l : List (Nat × β)) (r : Nat × β) : Prop :=
+  ∃ pre post, l = pre ++ r :: post ∧ (∀ e ∈ pre, r.2 < e.2) ∧ (∀ e ∈ post, r.2 ≤ e.2)
+
+theorem FirstMin.le {l : List (Nat × β)} {r : Nat × β} (h : FirstMin l r) : ∀ e ∈ l, r.2 ≤ e.2 := by
+  obtain ⟨pre, post, rfl, h1, h2⟩ := h
+  intro e he
+  simp only [List.mem_append, List.mem_cons] at he
+  rcases he with he | rfl | he
+  · exact le_of_lt (h1 e he)
+  · exact le_refl _
+  · exact h2 e he
+
+theorem minByGo_firstMin (acc : Nat × β) (l : List (Nat × β)) :
+    ∃ r, minByGo (cmpSnd tcmp) acc l = some r ∧ FirstMin (acc :: l) r := by
+  induction l generalizing acc with
+  | nil => exact ⟨acc, rfl, [], [], rfl, by simp, by simp⟩
+  | cons c cs ih =>
+    by_cases hgt : c.2 < acc.2
+    · have hc : compare acc.2 c.2 = .gt := compare_gt_iff_gt.mpr hgt
+      obtain ⟨r, hr, hf⟩ := ih c
+      refine ⟨r, ?_, ?_⟩
+      · simp only [minByGo, cmpSnd, tcmp, hc]; exact hr
+      · have hle := hf.le c (by simp)
+        obtain ⟨pre, post, e, h1, h2⟩ := hf
+        refine ⟨acc :: pre, post, by rw [e]; rfl, ?_, h2⟩
+        intro x hx
+        rcases List.mem_cons.mp hx with rfl | hx
+        · exact lt_of_le_of_lt hle hgt
+        · exact h1 x hx
+    · have hle : acc.2 ≤ c.2 := not_lt.mp hgt
+      obtain ⟨r, hr, hf⟩ := ih acc
+      refine ⟨r, ?_, ?_⟩
+      · have hne : compare acc.2 c.2 ≠ .gt := fun h => hgt (compare_gt_iff_gt.mp h)
+        simp only [minByGo, cmpSnd, tcmp]
+        cases hcmp : compare acc.2 c.2 with
+        | gt => exact absurd hcmp hne
+        | lt => exact hr
+        | eq => exact hr
+      · obtain ⟨pre, post, e, h1, h2⟩ := hf
+        cases pre with
+        | nil =>
+          simp only [List.nil_append, List.cons.injEq] at e
+          obtain ⟨rfl, rfl⟩ := e
+          refine ⟨[], c :: cs, rfl, by simp, ?_⟩
+          intro x hx
+          rcases List.mem_cons.mp hx with rfl | hx
+          · exact hle
+          · exact h2 x hx
+        | cons p pre' =>
+          simp only [List.cons_append, List.cons.injEq] at e
+          obtain ⟨rfl, rfl⟩ := e
+          refine ⟨acc :: c :: pre', post, rfl, ?_, h2⟩
+          intro x hx
+          simp only [List.mem_cons] at hx
+          rcases hx with rfl | rfl | hx
+          · exact h1 _ (by simp)
+          · exact lt_of_lt_of_le (h1 _ (by simp)) hle
+          · exact h1 x (by simp [hx])
+
+omit [LinearOrder β] in
+theorem enumFrom_map_snd (n : Nat) (ds : List β) : (enumFrom n ds).map Prod.snd = ds := by
+  induction ds generalizing n with
+  | nil => rfl
+  | cons d ds ih => simp [enumFrom, ih]
+
+omit [LinearOrder β] in
+theorem enumFrom_getElem? (n : Nat) (ds : List β) (k : Nat) :
+    (enumFrom n ds)[k]? = ds[k]?.map fun d => (n + k, d) := by
+  induction ds generalizing n k with
+  | nil => simp [enumFrom]
+  | cons d ds ih =>
+    cases k with
+    | zero => simp [enumFrom]
+    | succ k =>
+      simp only [enumFrom, List.getElem?_cons_succ, ih]
+      congr 1; funext d; congr 1; omega
+
+omit [LinearOrder β] in
+theorem enumFrom_split (n : Nat) (ds : List β) (pre post : List (Nat × β)) (r : Nat × β)
+    (h : enumFrom n ds = pre ++ r :: post) :
+    r.1 = n + pre.length ∧ ds = pre.map Prod.snd ++ r.2 :: post.map Prod.snd := by
+  constructor
+  · have h1 : (enumFrom n ds)[pre.length]? = some r := by rw [h]; simp
+    rw [enumFrom_getElem?] at h1
+    cases hd : ds[pre.length]? with
+    | none => simp [hd] at h1
+    | some d => simp only [hd, Option.map_some, Option.some.injEq] at h1; rw [← h1]
+  · have := enumFrom_map_snd n ds
+    rw [h] at this
+    rw [← this]; simp
+
+omit [LinearOrder β] in
+theorem enumFrom_ne_nil (n : Nat) (ds : List β) (h : ds ≠ []) : ∃ e es, enumFrom n ds = e :: es := by
+  cases ds with
+  | nil => exact absurd rfl h
+  | cons d ds => exact ⟨_, _, rfl⟩
+
+/-- **`neighborhood` returns the first index attaining the minimum**: for a non-empty list of
+    distances the result `(i, d)` is the entry at position `i`, no distance is smaller than `d`,
+    and every distance at an earlier position is strictly larger. -/
+theorem C13_argmin_first_min (ds : List β) (hne : ds ≠ []) :
+    ∃ i d, argmin tcmp ds = some (i, d) ∧ ds[i]? = some d ∧
+      (∀ j (hj : j < ds.length), d ≤ ds[j]) ∧ (∀ j (hj : j < ds.length), j < i → d < ds[j]) := by
+  obtain ⟨e, es, he⟩ := enumFrom_ne_nil 0 ds hne
+  obtain ⟨r, hr, hf⟩ := minByGo_firstMin e es
+  obtain ⟨pre, post, hsplit, h1, h2⟩ := hf
+  rw [← he] at hsplit
+  obtain ⟨hi, hds⟩ := enumFrom_split 0 ds pre post r hsplit
+  refine ⟨r.1, r.2, ?_, ?_, ?_, ?_⟩
+  · simp only [argmin, he, minBy, hr, Option.map_some]
+  · rw [hds, hi]; simp
+  · intro j hj
+    have hm : ds[j] ∈ pre.map Prod.snd ++ r.2 :: post.map Prod.snd := by
+      rw [← hds]; exact List.getElem_mem hj
+    simp only [List.mem_append, List.mem_map, List.mem_cons] at hm
+    rcases hm with ⟨x, hx, hxe⟩ | h | ⟨x, hx, hxe⟩
+    · rw [← hxe]; exact le_of_lt (h1 x hx)
+    · rw [h]
+    · rw [← hxe]; exact h2 x hx
+  · intro j hj hji
+    have hjl : j < (pre.map Prod.snd).length := by simp; omega
+    have hq : ds[j]? = (pre.map Prod.snd)[j]? := by
+      conv_lhs => rw [hds]
+      exact List.getElem?_append_left hjl
+    rw [List.getElem?_eq_getElem hj, List.getElem?_eq_getElem hjl] at hq
+    rw [Option.some.inj hq]
+    have hm : (pre.map Prod.snd)[j] ∈ pre.map Prod.snd := List.getElem_mem hjl
+    obtain ⟨x, hx, hxe⟩ := List.mem_map.mp hm
+    rw [← hxe]; exact h1 x hx
+
+/-- no centroid: the `expect` panics -/
+theorem C13_argmin_empty : argmin (tcmp (β := β)) [] = none := rfl
+
+end argmin
+
+/-! ## `next`: absorb every point into exactly its first-nearest centroid -/
+section next
+
+theorem absorbAt_eq (cs : List Hist) (n : Nat) (p : Hist) :
+    absorbAt cs n p = if h : n < cs.length then some (cs.set n (cs[n].absorb p)) else none := by
+  induction cs generalizing n with
+  | nil => simp [absorbAt]
+  | cons c cs ih =>
+    cases n with
+    | zero => simp [absorbAt]
+    | succ n =>
+      simp only [absorbAt, ih n, List.length_cons, Nat.add_lt_add_iff_right]
+      split <;> simp
+
+/-- what the assignments `asg = [(point, neighbor)]` contribute to centroid `j` under `f` -/
+def contrib (f : Hist → Nat) (asg : List (Hist × Nat)) (j : Nat) : Nat :=
+  ((asg.filter fun pn => pn.2 == j).map fun pn => f pn.1).sum
+
+theorem absorbAll_spec (asg : List (Hist × Nat)) (cs cs' : List Hist)
+    (hcs : ∀ c ∈ cs, c.WF) (hps : ∀ pn ∈ asg, pn.1.WF) (h : absorbAll cs asg = some cs') :
+    cs'.length = cs.length ∧ (∀ pn ∈ asg, pn.2 < cs.length) ∧
+    ∀ j c, cs[j]? = some c → ∃ c', cs'[j]? = some c' ∧ c'.WF ∧
+      (∀ a, c'.count a = c.count a + contrib (fun h => h.count a) asg j) ∧
+      c'.mass = c.mass + contrib (fun h => h.mass) asg j := by
+  induction asg generalizing cs with
+  | nil =>
+    simp only [absorbAll, Option.some.injEq] at h
+    subst h
+    refine ⟨rfl, by simp, fun j c hc => ⟨c, hc, hcs c (List.mem_of_getElem? hc), by simp [contrib], by simp [contrib]⟩⟩
+  | cons pn rest ih =>
+    obtain ⟨p, n⟩ := pn
+    simp only [absorbAll, absorbAt_eq] at h
+    by_cases hn : n < cs.length
+    · rw [dif_pos hn] at h
+      simp only at h
+      have hpw : p.WF := hps (p, n) (by simp)
+      have hcs1 : ∀ c ∈ cs.set n (cs[n].absorb p), c.WF := by
+        intro c hc
+        rcases List.mem_or_eq_of_mem_set hc with hc | rfl
+        · exact hcs c hc
+        · exact Hist.absorb_WF _ _ (hcs _ (List.getElem_mem hn))
+      obtain ⟨hl, hlt, hj⟩ := ih (cs.set n (cs[n].absorb p)) hcs1 (fun pn hpn => hps pn (by simp [hpn])) h
+      rw [List.length_set] at hl hlt
+      refine ⟨hl, ?_, ?_⟩
+      · intro pn hpn
+        rcases List.mem_cons.mp hpn with rfl | hpn
+        · exact hn
+        · exact hlt pn hpn
+      · intro j c hc
+        by_cases hjn : j = n
+        · subst hjn
+          have hcj : cs[j] = c := by
+            rw [List.getElem?_eq_getElem hn] at hc; exact Option.some.inj hc
+          have : (cs.set j (cs[j].absorb p))[j]? = some (c.absorb p) := by
+            rw [List.getElem?_set_self hn, hcj]
+          obtain ⟨c', h1, h2, h3, h4⟩ := hj j _ this
+          refine ⟨c', h1, h2, ?_, ?_⟩
+          · intro a
+            rw [h3 a, Hist.absorb_count c p (hcs c (List.mem_of_getElem? hc)) hpw a]
+            simp [contrib, List.filter_cons]; omega
+          · rw [h4, Hist.absorb_mass]
+            simp [contrib, List.filter_cons]; omega
+        · have : (cs.set n (cs[n].absorb p))[j]? = some c := by
+            rw [List.getElem?_set_ne (fun h' => hjn h'.symm)]; exact hc
+          obtain ⟨c', h1, h2, h3, h4⟩ := hj j _ this
+          have hb : ((p, n).2 == j) = false := by simpa using fun h' : n = j => hjn h'.symm
+          refine ⟨c', h1, h2, ?_, ?_⟩
+          · intro a; rw [h3 a]; simp [contrib, List.filter_cons, hb]
+          · rw [h4]; simp [contrib, List.filter_cons, hb]
+    · rw [dif_neg hn] at h
+      cases h
+
+variable {π κ β : Type}
+
+/-- `neighbors` succeeds exactly with the list of all neighborhoods, in point order -/
+theorem neighbors_some (cmp : β → β → Option Ordering) (dist : π → κ → β) (kmeans : List κ)
+    (points : List π) (ns : List (Nat × β)) :
+    neighbors cmp dist kmeans points = some ns ↔
+      List.Forall₂ (fun p r => neighborhood cmp dist kmeans p = some r) points ns := by
+  induction points generalizing ns with
+  | nil =>
+    simp only [neighbors, Option.some.injEq]
+    constructor
+    · rintro rfl; exact List.Forall₂.nil
+    · intro h; cases h; rfl
+  | cons x xs ih =>
+    simp only [neighbors]
+    cases hx : neighborhood cmp dist kmeans x with
+    | none =>
+      simp only []
+      constructor
+      · intro h; cases h
+      · intro h; cases h with | cons h1 _ => rw [hx] at h1; cases h1
+    | some r =>
+      simp only []
+      cases hxs : neighbors cmp dist kmeans xs with
+      | none =>
+        simp only [Option.map_none]
+        constructor
+        · intro h; cases h
+        · intro h
+          cases h with
+          | cons h1 h2 => have := (ih _).mpr h2; rw [hxs] at this; cases this
+      | some rs =>
+        simp only [Option.map_some, Option.some.injEq]
+        constructor
+        · rintro rfl; exact List.Forall₂.cons hx ((ih rs).mp hxs)
+        · intro h
+          cases h with
+          | cons h1 h2 =>
+            rw [hx] at h1
+            have := (ih _).mpr h2
+            rw [hxs] at this
+            cases h1; cases this; rfl
+
+/-- the assignment list `next` folds over -/
+def assignment (histOf : π → Hist) (points : List π) (ns : List (Nat × β)) : List (Hist × Nat) :=
+  (points.map histOf).zip (ns.map Prod.fst)
+
+/-- **`next`**: if the step succeeds then (1) there are exactly `k = street.k()` new centroids,
+    (2) every point has a neighborhood `ns[i]` (by `C13_argmin_first_min` the first-nearest centroid)
+    with index below `k`, and (3) the `j`-th new centroid is a well-formed histogram whose count of
+    every bucket `a` — and whose mass — is the sum over exactly the points assigned to `j`. -/
+theorem C13_next_spec (k : Nat) (cmp : β → β → Option Ordering) (dist : π → κ → β) (histOf : π → Hist)
+    (points : List π) (kmeans : List κ) (cs : List Hist)
+    (hwf : ∀ p ∈ points, (histOf p).WF)
+    (h : next k cmp dist histOf points kmeans = some cs) :
+    cs.length = k ∧ ∃ ns, List.Forall₂ (fun p r => neighborhood cmp dist kmeans p = some r) points ns ∧
+      (∀ r ∈ ns, r.1 < k) ∧
+      ∀ j, j < k → ∃ c, cs[j]? = some c ∧ c.WF ∧
+        (∀ a, c.count a = contrib (fun h => h.count a) (assignment histOf points ns) j) ∧
+        c.mass = contrib (fun h => h.mass) (assignment histOf points ns) j := by
+  unfold next at h
+  cases hn : neighbors cmp dist kmeans points with
+  | none => rw [hn] at h; cases h
+  | some ns =>
+    rw [hn] at h
+    simp only at h
+    have hF := (neighbors_some cmp dist kmeans points ns).mp hn
+    have hlen : points.length = ns.length := hF.length_eq
+    have hps : ∀ pn ∈ (points.map histOf).zip (ns.map Prod.fst), pn.1.WF := by
+      intro pn hpn
+      have := (List.of_mem_zip hpn).1
+      obtain ⟨p, hp, hpe⟩ := List.mem_map.mp this
+      rw [← hpe]; exact hwf p hp
+    obtain ⟨hl, hlt, hj⟩ := absorbAll_spec _ (List.replicate k Hist.empty) cs
+      (fun c hc => by rw [(List.mem_replicate.mp hc).2]; exact Hist.empty_WF) hps h
+    rw [List.length_replicate] at hl hlt
+    refine ⟨hl, ns, hF, ?_, ?_⟩
+    · intro r hr
+      obtain ⟨i, hi, rfl⟩ := List.getElem_of_mem hr
+      have hi' : i < points.length := by omega
+      have hm : (histOf points[i], ns[i].1) ∈ (points.map histOf).zip (ns.map Prod.fst) := by
+        rw [List.mem_iff_getElem]
+        refine ⟨i, by simp; omega, by simp⟩
+      exact hlt _ hm
+    · intro j hjk
+      have : (List.replicate k Hist.empty)[j]? = some Hist.empty := by simp [hjk]
+      obtain ⟨c', h1, h2, h3, h4⟩ := hj j _ this
+      exact ⟨c', h1, h2, fun a => by rw [h3 a, Hist.empty_count]; simp [assignment],
+        by rw [h4]; simp [assignment, Hist.empty]⟩
+
+theorem contrib_total (f : Hist → Nat) (asg : List (Hist × Nat)) (k : Nat) (h : ∀ pn ∈ asg, pn.2 < k) :
+    ((List.range k).map (contrib f asg)).sum = (asg.map fun pn => f pn.1).sum := by
+  induction asg with
+  | nil =>
+    have : contrib f [] = fun _ => 0 := funext fun j => by simp [contrib]
+    rw [this]; simp
+  | cons pn rest ih =>
+    have hr := ih (fun pn hpn => h pn (by simp [hpn]))
+    have hlt : pn.2 < k := h pn (by simp)
+    have key : ∀ j, contrib f (pn :: rest) j = (if pn.2 = j then f pn.1 else 0) + contrib f rest j := by
+      intro j
+      by_cases hj : pn.2 = j
+      · simp [contrib, List.filter_cons, hj]
+      · have : (pn.2 == j) = false := by simpa using hj
+        simp [contrib, List.filter_cons, hj, this]
+    have hfun : contrib f (pn :: rest) = fun j => (if pn.2 = j then f pn.1 else 0) + contrib f rest j :=
+      funext key
+    rw [hfun, List.map_cons, List.sum_cons, ← hr]
+    have hsplit : ∀ (l : List Nat) (g1 g2 : Nat → Nat),
+        (l.map fun j => g1 j + g2 j).sum = (l.map g1).sum + (l.map g2).sum := by
+      intro l g1 g2; induction l with
+      | nil => simp
+      | cons x xs ihx => simp [ihx]; omega
+    rw [hsplit]
+    congr 1
+    -- exactly one index below k equals pn.2
+    have : ∀ k, pn.2 < k → ((List.range k).map fun j => if pn.2 = j then f pn.1 else 0).sum = f pn.1 := by
+      intro k
+      induction k with
+      | zero => intro h; omega
+      | succ k ihk =>
+        intro hk
+        rw [List.range_succ, List.map_append, List.sum_append]
+        by_cases hlast : pn.2 = k
+        · have hz : ((List.range k).map fun j => if pn.2 = j then f pn.1 else 0).sum = 0 := by
+            apply List.sum_eq_zero
+            intro x hx
+            obtain ⟨j, hj, rfl⟩ := List.mem_map.mp hx
+            have := List.mem_range.mp hj
+            have : pn.2 ≠ j := by omega
+            simp [this]
+          rw [hz]; simp [hlast]
+        · have := ihk (by omega)
+          rw [this]; simp [hlast]
+    exact this k hlt
+
+/-- **Conservation**: the new centroids together contain exactly the samples of all points —
+    the total mass and, for every bucket `a`, the total count are unchanged. -/
+theorem C13_next_conserves (k : Nat) (cmp : β → β → Option Ordering) (dist : π → κ → β) (histOf : π → Hist)
+    (points : List π) (kmeans : List κ) (cs : List Hist)
+    (hwf : ∀ p ∈ points, (histOf p).WF)
+    (h : next k cmp dist histOf points kmeans = some cs) :
+    (cs.map Hist.mass).sum = (points.map fun p => (histOf p).mass).sum ∧
+    ∀ a, (cs.map fun c => c.count a).sum = (points.map fun p => (histOf p).count a).sum := by
+  obtain ⟨hl, ns, hF, hlt, hj⟩ := C13_next_spec k cmp dist histOf points kmeans cs hwf h
+  have hlen : points.length = ns.length := hF.length_eq
+  have hasg : ∀ pn ∈ assignment histOf points ns, pn.2 < k := by
+    intro pn hpn
+    have := (List.of_mem_zip hpn).2
+    obtain ⟨r, hr, hre⟩ := List.mem_map.mp this
+    rw [← hre]; exact hlt r hr
+  have hcs : ∀ (g : Hist → Nat), (∀ j, j < k → ∃ c, cs[j]? = some c ∧ g c = contrib g (assignment histOf points ns) j) →
+      (cs.map g).sum = ((List.range k).map (contrib g (assignment histOf points ns))).sum := by
+    intro g hg
+    congr 1
+    apply List.ext_getElem?
+    intro j
+    by_cases hjk : j < k
+    · obtain ⟨c, hc, hgc⟩ := hg j hjk
+      simp [hc, hjk, hgc]
+    · have h1 : cs.length ≤ j := by omega
+      simp [List.getElem?_eq_none h1, hjk]
+  have hfst : ∀ (g : Hist → Nat), ((assignment histOf points ns).map fun pn => g pn.1).sum = (points.map fun p => g (histOf p)).sum := by
+    intro g
+    congr 1
+    unfold assignment
+    apply List.ext_getElem?
+    intro i
+    by_cases hi : i < points.length
+    · have hi2 : i < ns.length := by omega
+      simp [List.getElem?_eq_getElem, hi, hi2]
+    · have h1 : points.length ≤ i := by omega
+      simp [h1, hlen ▸ h1]
+  constructor
+  · rw [hcs Hist.mass (fun j hjk => by obtain ⟨c, h1, _, _, h4⟩ := hj j hjk; exact ⟨c, h1, h4⟩),
+      contrib_total _ _ k hasg, hfst Hist.mass]
+  · intro a
+    rw [hcs (fun c => c.count a) (fun j hjk => by obtain ⟨c, h1, _, h3, _⟩ := hj j hjk; exact ⟨c, h1, h3 a⟩),
+      contrib_total _ _ k hasg, hfst (fun c => c.count a)]
+
+/-- **`lookup`**: the `i`-th isomorphism class is paired with `abstraction(k)` where `k` is the
+    neighborhood of the `i`-th point; the table has `min(#classes, #points)` rows. -/
+theorem C13_lookup_spec {ι : Type} (street : Nat) (cmp : β → β → Option Ordering) (dist : π → κ → β)
+    (points : List π) (kmeans : List κ) (isos : List ι) (l : List (ι × Nat))
+    (h : lookup street cmp dist points kmeans isos = some l) :
+    l.length = min isos.length points.length ∧
+    ∀ i (hi : i < l.length), ∃ p r, points[i]? = some p ∧ isos[i]? = some l[i].1 ∧
+      neighborhood cmp dist kmeans p = some r ∧ l[i].2 = absCode street r.1 := by
+  unfold lookup at h
+  cases hn : neighbors cmp dist kmeans points with
+  | none => rw [hn] at h; cases h
+  | some ns =>
+    rw [hn] at h
+    simp only [Option.some.injEq] at h
+    subst h
+    have hF := (neighbors_some cmp dist kmeans points ns).mp hn
+    have hlen : points.length = ns.length := hF.length_eq
+    refine ⟨by simp [hlen], ?_⟩
+    intro i hi
+    simp only [List.length_zip, List.length_map] at hi
+    have hi1 : i < isos.length := by omega
+    have hi2 : i < ns.length := by omega
+    have hi3 : i < points.length := by omega
+    refine ⟨points[i], ns[i], by simp [hi3], by simp [hi1], ?_, by simp⟩
+    exact List.Forall₂.get hF hi3 hi2
+
+end next
+
+/-- non-vacuity: ties go to the first minimum (index 1, not 2), as `Iterator::min_by` does -/
+example : argmin (tcmp (β := Nat)) [7, 3, 3, 5] = some (1, 3) := by decide
+
+/-- an unordered distance (NaN, here `none`) makes the step fail instead of picking a centroid -/
+example : argmin (fun a b : Option Nat => match a, b with
+    | some x, some y => some (compare x y) | _, _ => none) [some 2, none, some 1] = none := by decide
+
+end RP.C13
